@@ -13,8 +13,10 @@ Definition Reach (s s' : st) : Prop := exists ops, wf_ops ops /\ lrun ops s = Ok
 Definition FailsAt (s : st) (e : err) : Prop :=
   match e with
   | EAlreadyUsed id => exists s1, Reach s s1 /\ use_wire id s1 = Err (EAlreadyUsed id)
+  | ELeak _ => False          (* only the end-of-function check reports leaks *)
   | _ => True
   end.
+Definition not_leafy (e : err) : Prop := match e with EAlreadyUsed _ | ELeak _ => False | _ => True end.
 Definition Sim {X} (s : st) (r : res X) (proj : X -> st) : Prop :=
   match r with Ok x => Reach s (proj x) | Err e => FailsAt s e end.
 
@@ -43,8 +45,8 @@ Lemma Sim_bind : forall X Y s (r : res X) (k : X -> res Y) p q,
 Proof. intros X Y s [x|e] k p q S K; simpl in *; [eapply Sim_pre; [exact S | apply K; reflexivity] | exact S]. Qed.
 Lemma Sim_ok : forall X s (x : X) p, Reach s (p x) -> Sim s (Ok x) p.
 Proof. intros. exact H. Qed.
-Lemma Sim_err : forall X s e (p : X -> st), (forall id, e <> EAlreadyUsed id) -> Sim s (Err e) p.
-Proof. intros X s e p H. simpl. destruct e; simpl; auto. exfalso. eapply H. reflexivity. Qed.
+Lemma Sim_err : forall X s e (p : X -> st), not_leafy e -> Sim s (Err e) p.
+Proof. intros X s e p H. simpl. destruct e; simpl in *; auto; contradiction. Qed.
 
 Lemma wf_all : forall (g : ty -> kind) l, (forall x, wf_kind (g x)) ->
   wf_kind (fold_right (fun x k => let kx := g x in mkKind (copyable kx && copyable k) (droppable kx && droppable k)) (mkKind true true) l).
@@ -75,17 +77,17 @@ Proof.
   intros sd t ts id ts' H. apply create_t_leaf in H. destruct H as [H _].
   pose proof (create_reach (kind_of_ty 8 sd t) (leaf ts) (kind_of_ty_wf _ _ _)) as R. rewrite <- H in R. exact R.
 Qed.
-Lemma use_wire_err_id : forall id s j, use_wire id s = Err (EAlreadyUsed j) -> j = id.
+Lemma use_wire_err_id : forall id s e, use_wire id s = Err e -> e = EAlreadyUsed id \/ not_leafy e.
 Proof.
-  intros id s j H. unfold use_wire in H. destruct (objs s id); [|discriminate].
-  destruct (use_raises _ _ _); [inversion H; reflexivity|].
-  destruct (use_pops _ _ _); [destruct (dict_pop _ _)|]; discriminate.
+  intros id s e H. unfold use_wire in H. destruct (objs s id); [|inversion H; right; exact I].
+  destruct (use_raises _ _ _); [inversion H; left; reflexivity|].
+  destruct (use_pops _ _ _); [destruct (dict_pop _ _)|]; inversion H. right; exact I.
 Qed.
 Lemma use_wire_sim : forall id s, Sim s (use_wire id s) (fun x => x).
 Proof.
   intros id s. destruct (use_wire id s) as [s'|e] eqn:U; simpl.
   - exists [LUse id]. split; [intros k [[H|[]]|[j [H|[]]]]; discriminate | rewrite lrun_single; exact U].
-  - destruct e; simpl; auto. pose proof (use_wire_err_id _ _ _ U). subst. exists s. split; [apply Reach_refl | exact U].
+  - destruct (use_wire_err_id _ _ _ U) as [->|N]; [exists s; split; [apply Reach_refl | exact U] | destruct e; simpl in *; auto; destruct N].
 Qed.
 Lemma use_t_sim : forall id ts, Sim (leaf ts) (use_t id ts) leaf.
 Proof.
@@ -104,12 +106,13 @@ Proof.
   - exists [LReassign vid k]. split; [|rewrite lrun_single; exact R].
     intros k' [[H|[]]|[j [H|[]]]]; inversion H; subst; exact W.
   - (* the fresh object cannot be "already used" *)
-    destruct e; simpl; auto. exfalso. unfold step in R. rewrite E in R. rewrite create_eq in R. unfold create' in R.
+    assert (N : not_leafy e); [|destruct e; simpl in *; auto; destruct N].
+    unfold step in R. rewrite E in R. rewrite create_eq in R. unfold create' in R.
     cbv iota beta in R. rewrite update_leaf_eq in R. unfold update_leaf', use_wire' in R. simpl in R.
     unfold upd at 1 in R. rewrite Nat.eqb_refl in R. simpl in R.
     destruct (negb (droppable k)); simpl in R.
-    + destruct (dict_pop _ _); simpl in R; [|discriminate]. destruct (upd _ _ _ vid); discriminate.
-    + destruct (upd _ _ _ vid); discriminate.
+    + destruct (dict_pop _ _); simpl in R; [|inversion R; exact I]. destruct (upd _ _ _ vid); inversion R. exact I.
+    + destruct (upd _ _ _ vid); inversion R. exact I.
 Qed.
 
 Lemma create_t_heap : forall sd t ts id ts', create_t sd t ts = (id, ts') ->
@@ -119,8 +122,8 @@ Lemma use_t_heap : forall id ts ts', use_t id ts = Ok ts' ->
   nloc ts' = nloc ts /\ lists ts' = lists ts /\ strs ts' = strs ts.
 Proof. intros id ts ts' H. unfold use_t in H. destruct (use_wire id (leaf ts)); simpl in H; inversion H. simpl. auto. Qed.
 
-Lemma ty_of_err : forall id ts e, ty_of id ts = Err e -> forall j, e <> EAlreadyUsed j.
-Proof. intros id ts e H j. unfold ty_of in H. destruct (otys ts id); inversion H. discriminate. Qed.
+Lemma ty_of_err : forall id ts e, ty_of id ts = Err e -> not_leafy e.
+Proof. intros id ts e H. unfold ty_of in H. destruct (otys ts id); inversion H. exact I. Qed.
 Lemma new_list_leaf : forall fr vs ts, leaf (snd (new_list fr vs ts)) = leaf ts.
 Proof. reflexivity. Qed.
 Lemma new_struct_leaf : forall fr sid vs ts, leaf (snd (new_struct fr sid vs ts)) = leaf ts.
@@ -297,14 +300,13 @@ Opaque unpack from_py upd_fresh eval_f.
 
 (* ================================================= B. the tree layer refines the leaf layer *)
 Lemma Sim_bind_pure : forall X Y s (r : res X) (k : X -> res Y) q,
-  (forall e, r = Err e -> forall id, e <> EAlreadyUsed id) -> (forall x, r = Ok x -> Sim s (k x) q) -> Sim s (bind r k) q.
+  (forall e, r = Err e -> not_leafy e) -> (forall x, r = Ok x -> Sim s (k x) q) -> Sim s (bind r k) q.
 Proof.
-  intros X Y s [x|e] k q E K; simpl; [apply K; reflexivity|].
-  destruct e; simpl; auto. exfalso. eapply E; reflexivity.
+  intros X Y s [x|e] k q E K; simpl; [apply K; reflexivity|]. apply (Sim_err Y s e q). apply E. reflexivity.
 Qed.
-Lemma tys_of_err : forall ids ts e, tys_of ids ts = Err e -> forall j, e <> EAlreadyUsed j.
+Lemma tys_of_err : forall ids ts e, tys_of ids ts = Err e -> not_leafy e.
 Proof.
-  induction ids as [|i ids IH]; intros ts e H j; simpl in H; [discriminate|].
+  induction ids as [|i ids IH]; intros ts e H; simpl in H; [discriminate|].
   destruct (ty_of i ts) eqn:T; simpl in H; [|inversion H; subst; eapply ty_of_err; exact T].
   destruct (tys_of ids ts) eqn:T2; simpl in H; [discriminate|]. inversion H; subst. eapply IH; exact T2.
 Qed.
@@ -336,7 +338,7 @@ Proof.
   eapply Sim_bind; [apply use_t_sim|]. intros x _. apply IH.
 Qed.
 
-Ltac sim_err := apply Sim_err; intros; discriminate.
+Ltac sim_err := apply Sim_err; exact I.
 Ltac sim_ok := first [ apply Reach_refl | simpl; apply Reach_refl | simpl; rewrite ?new_list_leaf, ?new_struct_leaf; apply Reach_refl | apply create_t_reach' ].
 Ltac sim_go :=
   repeat first
@@ -445,13 +447,13 @@ Qed.
 
 #[export] Hint Resolve eval_sim call_fn_sim from_py_sim unpack_sim upd_fresh_sim : sim.
 
-Lemma mutate_err : forall m cur v e, mutate m cur v = Err e -> forall j, e <> EAlreadyUsed j.
+Lemma mutate_err : forall m cur v e, mutate m cur v = Err e -> not_leafy e.
 Proof.
-  intros m cur v e H j. destruct m; simpl in H; try discriminate.
-  - destruct cur; inversion H; discriminate.
-  - destruct (i <? length cur); inversion H; discriminate.
-  - inversion H; discriminate.
-  - inversion H; discriminate.
+  intros m cur v e H. destruct m; simpl in H; try discriminate.
+  - destruct cur; inversion H; exact I.
+  - destruct (i <? length cur); inversion H; exact I.
+  - inversion H; exact I.
+  - inversion H; exact I.
 Qed.
 
 Lemma exec_sim : forall sd s en ts, Sim (leaf ts) (exec sd s en ts) (fun r => leaf (snd (fst r))).
@@ -546,5 +548,61 @@ Proof.
     destruct (end_check (leaf ts)) as [[]|e] eqn:Ec.
     + exists ops. split; [exact W|]. split; [apply (lrun_inv ops _ W R) | apply L1; reflexivity].
     + destruct (L2 e eq_refl) as [id [-> Hl]]. exists ops, (leaf ts). auto.
-  - destruct e; auto. apply fails_is_second_use. exact S.
+  - destruct e; auto; [apply fails_is_second_use; exact S | destruct S].
 Qed.
+
+(* ======================================= C. frozen values reject every in-place mutation *)
+Lemma setattr_frozen_nonfield : setattr_outcome false true = SRaiseAttr. Proof. reflexivity. Qed.
+Lemma FrozenL_nth : forall ts vs i v, FrozenL ts vs -> nth_error vs i = Some v -> Frozen ts v.
+Proof.
+  intros ts vs i v F. revert i. induction F as [|w ws Hw Hws IHF]; intros [|i] Hn; simpl in Hn; try discriminate.
+  - inversion Hn; subst; assumption.
+  - eapply IHF; exact Hn.
+Qed.
+(** components of a frozen value are frozen: tuple / list elements and struct fields *)
+Lemma Frozen_component : forall ts v i c, Frozen ts v ->
+  match v with
+  | VTup vs => nth_error vs i = Some c
+  | VList loc => exists fr vs, lists ts loc = Some (fr, vs) /\ nth_error vs i = Some c
+  | VStruct loc => exists fr sid vs, strs ts loc = Some (fr, sid, vs) /\ nth_error vs i = Some c
+  | _ => False
+  end -> Frozen ts c.
+Proof.
+  intros ts v i c F Hc. destruct F as [| | |vs FL|loc vs HL FL|loc sid vs HS FL]; try contradiction.
+  - eapply FrozenL_nth; eassumption.
+  - destruct Hc as (fr & vs' & L & N). rewrite HL in L. inversion L; subst. eapply FrozenL_nth; eassumption.
+  - destruct Hc as (fr & sid' & vs' & L & N). rewrite HS in L. inversion L; subst. eapply FrozenL_nth; eassumption.
+Qed.
+Lemma frozen_list_flag : forall ts loc, Frozen ts (VList loc) -> exists vs, lists ts loc = Some (true, vs).
+Proof. intros ts loc F. inversion F; subst. eauto. Qed.
+Lemma frozen_struct_flag : forall ts loc, Frozen ts (VStruct loc) -> exists sid vs, strs ts loc = Some (true, sid, vs).
+Proof. intros ts loc F. inversion F; subst. eauto. Qed.
+
+Lemma mut_frozen_rejected : forall sd en ts e m x r rv loc,
+  eval en e ts = Ok r -> eval en x (snd r) = Ok rv -> fst r = VList loc -> Frozen (snd rv) (VList loc) ->
+  exec sd (SMut e m x) en ts = Err EFrozen.
+Proof.
+  intros sd en ts e m x r rv loc E1 E2 V F. destruct (frozen_list_flag _ _ F) as [vs L].
+  unfold exec. rewrite E1. simpl. rewrite E2. simpl. rewrite V, L. reflexivity.
+Qed.
+Lemma setidx_frozen_rejected : forall sd en ts e i x r rv loc,
+  eval en x ts = Ok rv -> eval en e (snd rv) = Ok r -> fst r = VList loc -> Frozen (snd r) (VList loc) ->
+  exec sd (SSetIdx e i x) en ts = Err EFrozen.
+Proof.
+  intros sd en ts e i x r rv loc E1 E2 V F. destruct (frozen_list_flag _ _ F) as [vs L].
+  unfold exec. rewrite E1. simpl. rewrite E2. simpl. rewrite V, L. reflexivity.
+Qed.
+Lemma setfld_frozen_rejected : forall sd en ts e f x r rv loc,
+  eval en x ts = Ok rv -> eval en e (snd rv) = Ok r -> fst r = VStruct loc -> Frozen (snd r) (VStruct loc) ->
+  exec sd (SSetFld e f x) en ts = Err EFrozen \/ exec sd (SSetFld e f x) en ts = Err EPy.
+Proof.
+  intros sd en ts e f x r rv loc E1 E2 V F. destruct (frozen_struct_flag _ _ F) as (sid & vs & L).
+  unfold exec. rewrite E1. simpl. rewrite E2. simpl. rewrite V, L.
+  destruct (f <? length vs); [rewrite setattr_frozen_field; left | rewrite setattr_frozen_nonfield; right]; reflexivity.
+Qed.
+Lemma setidx_tuple_rejected : forall sd en ts e i x r rv vs,
+  eval en x ts = Ok rv -> eval en e (snd rv) = Ok r -> fst r = VTup vs -> exec sd (SSetIdx e i x) en ts = Err EPy.
+Proof. intros. unfold exec. rewrite H. simpl. rewrite H0. simpl. rewrite H1. reflexivity. Qed.
+
+Lemma hwf0 : hwf tst0.
+Proof. intros loc _. split; reflexivity. Qed.
